@@ -1,4 +1,5 @@
 import Model.LocalOpt
+import Model.Generated.Phases
 /-!
 # C06: local optimization leaves the individual and its reported fitness in agreement
 
@@ -105,5 +106,71 @@ example :
 
 example : (call (V := Int) (fun c => some c.length) ⟨[[1,2],[3,4]], 1, [7,8]⟩ ⟨[0,0], true, 2⟩)
     = (some 2, ⟨[7,8], false, 2⟩, 4) := by decide
+
+
+/-! ## the body of `EquationRegressor.fit` the model `refit` mirrors (regenerated from the source) -/
+
+/-- first fit, then `fit_retries` re-fits with `_needs_opt` forced, a retry replaces the best only if it is
+STRICTLY smaller under Python's float `<` (so a NaN never replaces anything and a NaN best is never replaced),
+finally the best fitness and the best constants are stored -/
+theorem gen_fit_shape : Gen.Phases.regressorFit = "if sample_weight is not None:     print('sample weight not None, TODO')     raise NotImplementedError ; if self.equation.get_number_local_optimization_params() == 0:     return ; fit_func = self._get_local_opt(X, y) ; best_fitness = fit_func(self.equation) ; best_constants = tuple(self.equation.constants) ; for _ in range(self.fit_retries):     self.equation._needs_opt = True     fitness = fit_func(self.equation)     if fitness < best_fitness:         best_fitness = fitness         best_constants = tuple(self.equation.constants) ; self.equation.fitness = best_fitness ; self.equation.set_local_optimization_params(best_constants)" := by rfl
+
+/-- the invariant with the NaN-aware reading of "not worse": a first fit that is a number is never replaced by a NaN
+or by a larger number -/
+def Inv' (base : List V → Key) (f0 : Key) (acc : Key × List V × Eqn V) : Prop :=
+  acc.1 = base acc.2.1 ∧ (∀ a, f0 = some a → ∃ b, acc.1 = some b ∧ b ≤ a)
+
+theorem fold_inv' (base : List V → Key) (f0 : Key) (retries : List (Oracle V))
+    (acc : Key × List V × Eqn V) (h : Inv' base f0 acc) :
+    Inv' base f0 (retries.foldl (fun (acc : Key × List V × Eqn V) o =>
+        let (bf, bc, cur) := acc
+        let (f, cur', _) := call base o { cur with needsOpt := true }
+        if Key.lt f bf then (f, cur'.consts, cur') else (bf, bc, cur')) acc) := by
+  induction retries generalizing acc with
+  | nil => simpa using h
+  | cons o rest ih =>
+    simp only [List.foldl_cons]
+    apply ih
+    obtain ⟨bf, bc, cur⟩ := acc
+    simp only
+    split
+    · next hlt =>
+      refine ⟨reported_is_base base o _, ?_⟩
+      intro a ha
+      obtain ⟨b, hb, hba⟩ := h.2 a ha
+      simp only at hb
+      subst hb
+      cases hf : (call base o { cur with needsOpt := true }).1 with
+      | none => rw [hf] at hlt; simp [Key.lt] at hlt
+      | some c =>
+        rw [hf] at hlt
+        simp only [Key.lt, decide_eq_true_eq] at hlt
+        exact ⟨c, rfl, by omega⟩
+    · exact h
+
+/-- "re-fitting never returns constants worse than those of its first fit", NaN included: if the first fit is a
+number, the stored fitness is a number, not larger, and it is the base fitness of the stored constants -/
+theorem refit_first_finite (base : List V → Key) (first : Oracle V) (retries : List (Oracle V)) (e : Eqn V)
+    (hp : e.numParams ≠ 0) (a : Int) (ha : (call base first e).1 = some a) :
+    ∃ b, (refit base first retries e).1 = some b ∧ b ≤ a ∧
+      (refit base first retries e).1 = base (refit base first retries e).2.consts := by
+  simp only [refit, hp, if_false]
+  have h0 : Inv' base (call base first e).1
+      ((call base first e).1, (call base first e).2.1.consts, (call base first e).2.1) := by
+    refine ⟨reported_is_base base first e, ?_⟩
+    intro a' ha'
+    exact ⟨a', ha', Int.le_refl _⟩
+  have := fold_inv' base (call base first e).1 retries _ h0
+  obtain ⟨b, hb, hba⟩ := this.2 a ha
+  exact ⟨b, hb, hba, this.1⟩
+
+/-- non-vacuity: a first fit of 5, retries NaN, 7, 3: the result is 3; a NaN first fit stays NaN whatever follows
+(the current code cannot recover from it: `x < nan` is false) -/
+example :
+    (refit (V := Int) (fun c => match c with | [x] => if x = 0 then none else some x | _ => none)
+      ⟨[], 0, [5]⟩ [⟨[], 0, [0]⟩, ⟨[], 0, [7]⟩, ⟨[], 0, [3]⟩] ⟨[1], true, 1⟩).1 = some 3 := by decide
+example :
+    (refit (V := Int) (fun c => match c with | [x] => if x = 0 then none else some x | _ => none)
+      ⟨[], 0, [0]⟩ [⟨[], 0, [2]⟩] ⟨[1], true, 1⟩).1 = none := by decide
 
 end Bingo.C06
